@@ -18,6 +18,7 @@ import (
 	codectypes "github.com/cosmos/cosmos-sdk/codec/types"
 	sdk "github.com/cosmos/cosmos-sdk/types"
 	"github.com/cosmos/cosmos-sdk/x/authz"
+	"github.com/cosmos/cosmos-sdk/x/group"
 	banktypes "github.com/cosmos/cosmos-sdk/x/bank/types"
 
 	"verifharness/simnet"
@@ -44,11 +45,18 @@ type TxStep struct {
 	Gas        uint64              `json:"gas,omitempty"`
 	Memo       string              `json:"memo,omitempty"`
 	// Exec wraps Msgs into one authz.MsgExec whose grantee is account Exec-1 (0 = no wrapping).
-	Exec int    `json:"exec,omitempty"`
-	Note string `json:"note,omitempty"`
+	Exec int `json:"exec,omitempty"`
+	// Group wraps Msgs into one x/group MsgSubmitProposal (exec = try) of the harness's group
+	// policy, proposed by account Group-1 (0 = no wrapping): the messages run with the group
+	// policy account (a 32-byte address) as their signer if the proposer is the group's member.
+	Group int    `json:"group,omitempty"`
+	Note  string `json:"note,omitempty"`
 	// Proofs lists the DID proofs the generator made for this tx (see ProofReg).
 	Proofs []ProofReg `json:"proofs,omitempty"`
 }
+
+// Wrapped reports whether the messages travel inside another module's message.
+func (t *TxStep) Wrapped() bool { return t.Exec > 0 || t.Group > 0 }
 
 // Step is one element of a history.
 type Step struct {
@@ -116,6 +124,9 @@ type World struct {
 	Opt   Options
 	C     *simnet.Chain
 	Accts []simnet.Account
+	// Group is the harness's x/group group (see groupState); when it exists its policy account
+	// is Accts[NumAccounts], an actor nobody can sign for.
+	Group groupState
 	AOL   *AolModel
 	DID   *DidModel
 	PNFT  *PnftModel
@@ -160,6 +171,14 @@ type snapshot struct {
 	did   *DidModel
 	pnft  *PnftModel
 	authz map[string]bool
+	group groupState
+}
+
+// groupState is the harness's single x/group group: one member (weight 1, threshold 1), one
+// policy account. Policy == "" while it does not exist.
+type groupState struct {
+	Policy string
+	Member int
 }
 
 // New builds a world with NumAccounts funded accounts.
@@ -242,7 +261,7 @@ func New(opt Options) (*World, error) {
 func (w *World) On(p string) bool { return w.Opt.Prop == p || w.Opt.Also[p] }
 
 func (w *World) snap() {
-	w.committed = &snapshot{w.AOL.Clone(), w.DID.Clone(), w.PNFT.Clone(), cloneSet(w.Authz)}
+	w.committed = &snapshot{w.AOL.Clone(), w.DID.Clone(), w.PNFT.Clone(), cloneSet(w.Authz), w.Group}
 }
 
 func cloneSet(m map[string]bool) map[string]bool {
@@ -308,6 +327,8 @@ type TxObs struct {
 	Res        abci.ResponseDeliverTx
 	BuildErr   error
 	AntePassed bool
+	// GroupFailed: a group proposal transaction (code 0) whose messages were not executed.
+	GroupFailed bool
 	// Tampered: the delivered messages differ from the ones the signatures were made over.
 	Tampered bool
 	// Signed lists the bech32 addresses of accounts that produced a real signature.
@@ -325,7 +346,7 @@ type TxObs struct {
 }
 
 // OK reports whether the tx was delivered with code 0.
-func (o *TxObs) OK() bool { return o.BuildErr == nil && o.Res.Code == 0 }
+func (o *TxObs) OK() bool { return o.BuildErr == nil && o.Res.Code == 0 && !o.GroupFailed }
 
 var customStores = []string{"aol", "did", "pnft"}
 
@@ -399,6 +420,14 @@ func (w *World) applyTx(ts *TxStep) error {
 	if ts.Exec > 0 {
 		ex := authz.NewMsgExec(w.Accts[ts.Exec-1].Addr, obs.Msgs)
 		obs.Outer = []sdk.Msg{&ex}
+	} else if ts.Group > 0 {
+		gp, err := w.groupProposal(ts.Group-1, obs.Msgs)
+		if err != nil {
+			obs.BuildErr = err
+			w.shape("tx:unbuildable")
+			return nil
+		}
+		obs.Outer = []sdk.Msg{gp}
 	}
 	var signedOuter []sdk.Msg
 	if len(ts.SignedMsgs) > 0 {
@@ -416,6 +445,14 @@ func (w *World) applyTx(ts *TxStep) error {
 		if ts.Exec > 0 {
 			ex := authz.NewMsgExec(w.Accts[ts.Exec-1].Addr, sm)
 			signedOuter = []sdk.Msg{&ex}
+		} else if ts.Group > 0 {
+			gp, err := w.groupProposal(ts.Group-1, sm)
+			if err != nil {
+				obs.BuildErr = err
+				w.shape("tx:unbuildable")
+				return nil
+			}
+			signedOuter = []sdk.Msg{gp}
 		}
 		obs.Tampered = !sameMsgList(signedOuter, obs.Outer)
 	}
@@ -447,6 +484,11 @@ func (w *World) applyTx(ts *TxStep) error {
 		return nil
 	}
 	obs.Res = w.C.DeliverTx(raw)
+	if ts.Group > 0 && obs.Res.Code == 0 {
+		// the transaction succeeds whether or not the proposal's messages ran: they did only if
+		// the group module reports a successful execution
+		obs.GroupFailed = !groupExecSucceeded(obs.Res.Events)
+	}
 	w.blk.Raw = append(w.blk.Raw, raw)
 	w.blk.Res = append(w.blk.Res, obs.Res)
 	ctx = w.C.DeliverCtx()
@@ -512,6 +554,18 @@ func (w *World) applyTx(ts *TxStep) error {
 	if ts.Exec > 0 {
 		ex = "exec:"
 	}
+	if ts.Group > 0 {
+		ex = "group:"
+		switch {
+		case obs.OK():
+			w.Label("group proposal executed")
+		case obs.Res.Code == 0:
+			w.Label("group proposal accepted, execution failed")
+			oc = "group-exec-failed"
+		default:
+			w.Label("group proposal refused")
+		}
+	}
 	if ts.Exec > 0 {
 		if obs.OK() {
 			w.Label("authz exec accepted")
@@ -550,6 +604,9 @@ func (w *World) applyTx(ts *TxStep) error {
 				if ts.Exec > 0 {
 					w.Label("c16 out-of-limits message sent inside authz exec")
 				}
+				if ts.Group > 0 {
+					w.Label("c16 out-of-limits message sent inside a group proposal")
+				}
 				if obs.OK() {
 					return vio("C16", "a %T outside the documented limits was executed: %v", m, m)
 				}
@@ -583,14 +640,66 @@ func (w *World) observeGeneric(obs *TxObs) {
 			}
 		case *authz.MsgRevoke:
 			delete(w.Authz, g.Granter+"|"+g.Grantee+"|"+g.MsgTypeUrl)
+		case *group.MsgCreateGroupWithPolicy:
+			d, err := simnet.MsgResponses(obs.Res.Data)
+			if err != nil || len(d.MsgResponses) != 1 {
+				continue
+			}
+			var r group.MsgCreateGroupWithPolicyResponse
+			if err := r.Unmarshal(d.MsgResponses[0].Value); err != nil {
+				continue
+			}
+			pa, err := sdk.AccAddressFromBech32(r.GroupPolicyAddress)
+			if err != nil {
+				continue
+			}
+			w.Group = groupState{Policy: r.GroupPolicyAddress, Member: w.AcctIndex(g.Admin)}
+			// the policy account joins the pool of actors (nobody holds a key for it)
+			pseudo := simnet.Account{Name: "group-policy", Addr: pa, Bech: r.GroupPolicyAddress}
+			if len(w.Accts) > NumAccounts {
+				w.Accts[NumAccounts] = pseudo
+			} else {
+				w.Accts = append(append([]simnet.Account{}, w.Accts...), pseudo)
+			}
+			w.Label("group with policy created")
 		}
 	}
+}
+
+// groupProposal builds the x/group proposal (exec = try) that carries msgs.
+func (w *World) groupProposal(proposer int, msgs []sdk.Msg) (sdk.Msg, error) {
+	policy := w.Group.Policy
+	if policy == "" {
+		policy = sdk.AccAddress(bytes.Repeat([]byte{0x77}, 32)).String() // no group yet: refused
+	}
+	if proposer >= NumAccounts {
+		return nil, fmt.Errorf("the group policy account cannot propose")
+	}
+	return group.NewMsgSubmitProposal(policy, []string{w.Accts[proposer].Bech}, msgs, "", group.Exec_EXEC_TRY, "t", "s")
+}
+
+func groupExecSucceeded(evs []abci.Event) bool {
+	for _, ev := range evs {
+		if ev.Type != "cosmos.group.v1.EventExec" {
+			continue
+		}
+		for _, a := range ev.Attributes {
+			if a.Key == "result" && strings.Contains(a.Value, "PROPOSAL_EXECUTOR_RESULT_SUCCESS") {
+				return true
+			}
+		}
+	}
+	return false
 }
 
 // Authorised reports whether `actor` (a bech32 address named inside a message of type
 // typeURL) stands behind the transaction: it signed itself, or the transaction is an
 // authz exec by a signing grantee that holds a generic grant from actor for typeURL.
 func (w *World) Authorised(obs *TxObs, actor, typeURL string) bool {
+	if obs.Step.Group > 0 {
+		// the group policy account acts when its (only) member proposed and signed
+		return w.Group.Policy != "" && actor == w.Group.Policy && obs.Step.Group-1 == w.Group.Member && obs.Signed[w.Accts[w.Group.Member].Bech]
+	}
 	if obs.Step.Exec == 0 {
 		return obs.Signed[actor]
 	}
@@ -719,6 +828,7 @@ func (w *World) applyCrash(redeliver, afterEnd bool) error {
 		return nil
 	}
 	w.AOL, w.DID, w.PNFT, w.Authz = w.committed.aol.Clone(), w.committed.did.Clone(), w.committed.pnft.Clone(), cloneSet(w.committed.authz)
+	w.Group = w.committed.group
 	return w.checkCommitted()
 }
 
